@@ -37,16 +37,11 @@ def list_cases(sh):
                         yield q, A, B, None
     elif src == 'c05':
         sp_ = c05.space('quick', seed)
-        tabs = {'plain': list(qcheck.tables_upto(sp_['rows'], 2)), 'named': list(qcheck.tables_upto(sp_['nrows'], 2)), 'join': list(qcheck.tables_upto(sp_['jrows'], 2))}
+        tabs, Bsets = c05.tables_and_Bs(sp_, 2)
         for kind, q in sp_['qs'][sh['lo']:sh['hi']]:
             if kind == 'wide':
                 continue
-            if kind == 'join_empty_partner':
-                for B in ([[]], [[], ['q', 'p']]):
-                    for A in ([['x', 'y']], [['x', 'y'], ['u', 'w']]):
-                        yield q, A, B, None
-                continue
-            for B in (sp_['Bs'] if kind == 'join' else [None]):
+            for B in Bsets.get(kind, [None]):
                 for A in tabs[kind][::sh['stride']]:
                     yield q, A, B, (sp_['names'] if kind == 'named' else None)
     elif src == 'c04':
